@@ -35,6 +35,12 @@ def gen_case(rng, tier):
         actors.append(",".join(ops))
     k = rng.choice([1, 2, 2, 3])
     env = sched_env(rng, budget=600000)
+    while k > 1 and env["VR_SCHED"] == "pct":
+        # strict-priority schedules are unfair by design: once one of the known hangs has
+        # happened (two fibers ping-ponging in clear_or_wait on one kernel thread never look idle)
+        # a lower-priority kernel thread is starved for the rest of the run and an unrelated,
+        # perfectly healthy join on ANOTHER target is reported as stranded
+        env = sched_env(rng, budget=600000)
     return {"args": [k, ",".join(map(str, yields)), "|".join(actors)], "env": env}
 
 
@@ -63,7 +69,9 @@ SPEC = {
             "freed fiber_t / queue node of the target fibers are quarantined by the harness (free interposed for exactly those blocks) so that a late access is observable instead of undefined",
             "the targets' stacks: reclaimed-once is observed through upstream's __tsan_destroy_fiber call in fiber_context_destroy; 'not touched afterwards' = no switch to and no event by the destroyed fiber"],
         "assumptions": [
-            "client contract (handle validity): no call on a target is ISSUED after a join/tryjoin on it returned SUCCESS or after a detach on it returned; calls issued earlier may overlap arbitrarily",
-            "return values of the target functions are distinct non-NULL tokens"],
+            "client contract (handle validity): no call on a target is ISSUED after a join/tryjoin on it returned SUCCESS, after a detach on it returned, or once the harness knows the fiber_t has been freed; calls issued earlier may overlap arbitrarily (N joiners, join-then-detach, tryjoin x k, detach vs finish)",
+            "a call that has not yet exchanged detach_state when the target is (legitimately) destroyed has no claim on the fiber: its handle was invalid, what it does afterwards is not held against the library (raw-pointer handles; the client cannot know) - such calls are marked in the monitor and nothing they do is reported",
+            "return values of the target functions are distinct non-NULL tokens",
+            "strict-priority (pct) schedules are used with one kernel thread only (they starve healthy fibers once one of the known hangs has occurred)"],
     },
 }
